@@ -14,7 +14,8 @@ pub fn run(ctx: &mut Ctx) {
         let idx = k * ctx.nshards + ctx.shard;
         if !ctx.begin_case(idx, "history-with-restore") { continue; }
         let cfg = HistCfg { close_tag_draws: true, faults_max: 1, restore: true, payments: if ctx.thorough() { ctx.prng.gen_range(2..=10) } else { ctx.prng.gen_range(2..=4) }, boundary_balances: ctx.prng.gen_range(0..2) == 0, valid_bias: true };
-        let ok = run_history(ctx, &worlds[0], &worlds[1], &cfg);
+        // the two merchants take turns as the channel's merchant: one thread serves histories (and close checks) under both
+        let ok = run_history(ctx, &worlds[k % 2], &worlds[1 - k % 2], &cfg);
         ctx.count(if ok { "history:complete" } else { "history:stopped-early" });
         ctx.traces += 1;
     }
